@@ -9,7 +9,9 @@ RULE = ("schedule shim: the real worker methods produce the message streams of e
         "adversarial corners + 400 seeded ones), each under two legal statistics payloads (snapshot at put / final "
         "array); verdicts: multiset == sequential solver's, optimum value equal, None iff infeasible, queue drained "
         "when the call returns, aggregated statistics == sum (max for depth) of the workers' final statistics. Real "
-        "forked workers with injected 0-20 ms per-message delays confirm the shim on a subset. distinct = distinct "
+        "forked workers with injected 0-20 ms per-message delays confirm the shim on a subset. Histories of several calls "
+        "(enumerate twice, optimise then enumerate, an abandoned enumeration then a full one) on ONE solver object must "
+        "each answer like a first call. distinct = distinct "
         "(model, split, cfg, operation); non-trivial = >= 2 workers and >= 3 messages")
 
 
@@ -48,6 +50,8 @@ def main(tier, seed):
     rep.need("mp.exhaustive_cases", 30, "exhaustively enumerated cases")
     rep.need("mp.cases_with_a_worker_without_solution", 5, "workers without solution")
     rep.need("mp.runs_jit", 100, "compiled runs")
+    rep.need("mp.reuse_calls_judged", 200, "calls on an already used solver object")
+    rep.need("mp.reuse_calls_real_processes", 3, "second calls on one solver object with real processes")
     rep.need("mp.cases_with_a_silent_worker", 4, "a worker silent for several polling periods")
     rep.assumptions = ["per-producer FIFO is the only ordering multiprocessing.Queue guarantees",
                        "sequential solver as reference (tied to brute force by C01-C03)"]
